@@ -2,8 +2,8 @@
 
 PROP = dict(
     level="proof",
-    lean_modules=['PopsModel.Props.C02', 'PopsModel.Props.C02Soil', 'PopsModel.Props.NonVacuous.Host', 'PopsModel.Props.RunModel', 'PopsModel.Props.Draws'],
-    theorems=['Pops.C02_nonneg_step', 'Pops.C02_nonneg_move', 'Pops.C02_infected_le_total', 'Pops.C02_died_le_infected', 'Pops.C02_taken_le_present', 'Pops.C02_history', 'Pops.C02_soil_release_bounded', 'Pops.C02_soil_stochastic_full_fails', 'Pops.C02_C03_run', 'Pops.C02_C03_run_prefix', 'Pops.Draw_from_v', 'Pops.Draw_cohorts_contract', 'Pops.Draw_cohorts_contract_unsigned', 'Pops.Draw_negative_request_takes_all'],
+    lean_modules=['PopsModel.Props.C02', 'PopsModel.Props.C02Soil', 'PopsModel.Props.NonVacuous.Host', 'PopsModel.Props.RunModel', 'PopsModel.Props.Draws', 'PopsModel.Props.C04Pest'],
+    theorems=['Pops.C02_nonneg_step', 'Pops.C02_nonneg_move', 'Pops.C02_infected_le_total', 'Pops.C02_died_le_infected', 'Pops.C02_taken_le_present', 'Pops.C02_history', 'Pops.C02_soil_release_bounded', 'Pops.C02_soil_stochastic_full_fails', 'Pops.C02_C03_run', 'Pops.C02_C03_run_prefix', 'Pops.Draw_from_v', 'Pops.Draw_cohorts_contract', 'Pops.Draw_cohorts_contract_unsigned', 'Pops.Draw_negative_request_takes_all', 'Pops.C04_pest_nonneg_and_bounded'],
     commands=[],
     runs={
         "quick": [('h_host', 'pool', 0, 1500), ('h_host', 'soil', 0, 400), ('h_model', 'model', 0, 400), ('h_mmodel', 'multi', 0, 150), ('h_sim', 'sim', 0, 150), ('h_multi', 'pool', 0, 300)],
